@@ -33,13 +33,87 @@ DEPS = {
                    "att_clamp_to_zero", "b_models"],
     "B_material": ["b_models", "b_atomic_data", "b_integrator", "b_plasma"],
     "CX_cache": ["p_composition", "b_atomic_data", "b_element", "cx_line", "b_models"],
-    "BES_cache": ["p_composition", "b_atomic_data", "b_element", "b_models"],
+    "BES_cache": ["p_composition", "b_atomic_data", "b_element", "b_models", "bes_line"],
     "L_geometry": ["l_profile", "lp_length", "lp_radius"],
     "L_material": ["l_models", "l_integrator", "l_importance", "l_spectrum", "l_profile", "lp_length", "lp_radius",
                    "l_transform", "l_parent", "p_transform", "p_parent", "a_transform"],
     "S_arrays": ["ls_min", "ls_max", "ls_bins", "ls_mean", "ls_stddev", "l_spectrum"],
-    "LP_function": ["lp_energy", "l_profile"],
+    "LP_function": ["lp_energy", "l_profile", "lp_pulse_length", "lp_stddev_x", "lp_stddev_y", "lp_waist_z", "lp_stddev_waist",
+                    "lp_wavelength", "lp_mean_z"],
 }
+
+
+# ---------------------------------------------------------------------------------------------------------------
+# (T) the set of public mutators is regenerated from the current source: every `@x.setter` of the anchored
+# files must be mapped to a field of the op universe (or be excluded with a stated reason).  A setter that
+# appears in the source and is not listed here fails the obligation: the property is then no longer shown to
+# hold for that mutator.
+# ---------------------------------------------------------------------------------------------------------------
+ANCHORED = ["cherab/core/plasma/node.pyx", "cherab/core/plasma/model.pyx", "cherab/core/beam/node.pyx", "cherab/core/beam/model.pyx",
+            "cherab/core/laser/node.pyx", "cherab/core/laser/model.pyx", "cherab/core/laser/profile.pyx", "cherab/core/laser/laserspectrum.pyx",
+            "cherab/core/model/attenuator/singleray.pyx", "cherab/core/model/plasma/impact_excitation.pyx",
+            "cherab/core/model/plasma/recombination.pyx", "cherab/core/model/plasma/thermal_cx.pyx", "cherab/core/model/plasma/bremsstrahlung.pyx",
+            "cherab/core/model/plasma/total_radiated_power.pyx", "cherab/core/model/beam/charge_exchange.pyx",
+            "cherab/core/model/beam/beam_emission.pyx", "cherab/core/model/laser/laserspectrum.pyx", "cherab/core/model/laser/model.pyx",
+            "cherab/core/model/laser/profile.pyx", "cherab/core/model/laser/math_functions.pyx"]
+INTERNAL = "set by the owning node/material when the model is attached (documented as not to be set by the user)"
+FUNC3D = "parameter of an internal Function3D object owned by a profile; the profile's own setter replaces the object"
+MUTATORS = {
+    ("Plasma", "b_field"): "p_bfield", ("Plasma", "electron_distribution"): "p_edist", ("Plasma", "composition"): "p_composition",
+    ("Plasma", "geometry"): "p_geometry", ("Plasma", "geometry_transform"): "p_geometry_transform", ("Plasma", "integrator"): "p_integrator",
+    ("Plasma", "models"): "p_models", ("Plasma", "atomic_data"): "p_atomic_data",
+    ("PlasmaModel", "plasma"): ("excluded", INTERNAL), ("PlasmaModel", "atomic_data"): ("excluded", INTERNAL),
+    ("Beam", "energy"): "b_energy", ("Beam", "power"): "b_power", ("Beam", "temperature"): "b_temperature", ("Beam", "element"): "b_element",
+    ("Beam", "divergence_x"): "b_divergence_x", ("Beam", "divergence_y"): "b_divergence_y", ("Beam", "length"): "b_length",
+    ("Beam", "sigma"): "b_sigma", ("Beam", "atomic_data"): "b_atomic_data", ("Beam", "plasma"): "b_plasma",
+    ("Beam", "attenuator"): "b_attenuator", ("Beam", "models"): "b_models", ("Beam", "integrator"): "b_integrator",
+    ("BeamModel", "plasma"): ("excluded", INTERNAL), ("BeamModel", "beam"): ("excluded", INTERNAL), ("BeamModel", "atomic_data"): ("excluded", INTERNAL),
+    ("BeamAttenuator", "plasma"): ("excluded", INTERNAL), ("BeamAttenuator", "beam"): ("excluded", INTERNAL),
+    ("BeamAttenuator", "atomic_data"): ("excluded", INTERNAL),
+    ("Laser", "plasma"): ("excluded", "one plasma per scene in this harness; the setter is exercised at construction only"),
+    ("Laser", "importance"): "l_importance", ("Laser", "laser_spectrum"): "l_spectrum", ("Laser", "laser_profile"): "l_profile",
+    ("Laser", "models"): "l_models", ("Laser", "integrator"): "l_integrator",
+    ("LaserModel", "laser_profile"): ("excluded", INTERNAL), ("LaserModel", "plasma"): ("excluded", INTERNAL),
+    ("LaserModel", "laser_spectrum"): ("excluded", INTERNAL),
+    ("LaserSpectrum", "min_wavelength"): "ls_min", ("LaserSpectrum", "max_wavelength"): "ls_max", ("LaserSpectrum", "bins"): "ls_bins",
+    ("SingleRayAttenuator", "step"): "att_step", ("SingleRayAttenuator", "clamp_sigma"): "att_clamp_sigma",
+    ("Bremsstrahlung", "gaunt_factor"): "brems_gaunt", ("Bremsstrahlung", "integrator"): "brems_integrator",
+    ("BeamEmissionLine", "line"): "bes_line", ("BeamCXLine", "line"): "cx_line",
+    ("GaussianSpectrum", "stddev"): "ls_stddev", ("GaussianSpectrum", "mean"): "ls_mean",
+    ("ConstantAxisymmetricGaussian3D", "stddev"): ("excluded", FUNC3D), ("ConstantBivariateGaussian3D", "stddev_x"): ("excluded", FUNC3D),
+    ("ConstantBivariateGaussian3D", "stddev_y"): ("excluded", FUNC3D), ("TrivariateGaussian3D", "stddev_x"): ("excluded", FUNC3D),
+    ("TrivariateGaussian3D", "stddev_y"): ("excluded", FUNC3D), ("TrivariateGaussian3D", "stddev_z"): ("excluded", FUNC3D),
+    ("TrivariateGaussian3D", "mean_z"): ("excluded", FUNC3D), ("GaussianBeamModel", "wavelength"): ("excluded", FUNC3D),
+    ("GaussianBeamModel", "waist_z"): ("excluded", FUNC3D), ("GaussianBeamModel", "stddev_waist"): ("excluded", FUNC3D),
+    ("UniformEnergyDensity", "laser_length"): "lp_length", ("UniformEnergyDensity", "laser_radius"): "lp_radius",
+    ("UniformEnergyDensity", "energy_density"): "lp_energy",
+    ("ConstantBivariateGaussian", "laser_length"): "lp_length", ("ConstantBivariateGaussian", "laser_radius"): "lp_radius",
+    ("ConstantBivariateGaussian", "pulse_energy"): "lp_energy", ("ConstantBivariateGaussian", "pulse_length"): "lp_pulse_length",
+    ("ConstantBivariateGaussian", "stddev_x"): "lp_stddev_x", ("ConstantBivariateGaussian", "stddev_y"): "lp_stddev_y",
+    ("TrivariateGaussian", "laser_length"): "lp_length", ("TrivariateGaussian", "laser_radius"): "lp_radius",
+    ("TrivariateGaussian", "pulse_energy"): "lp_energy", ("TrivariateGaussian", "pulse_length"): "lp_pulse_length",
+    ("TrivariateGaussian", "stddev_x"): "lp_stddev_x", ("TrivariateGaussian", "stddev_y"): "lp_stddev_y", ("TrivariateGaussian", "mean_z"): "lp_mean_z",
+    ("GaussianBeamAxisymmetric", "laser_length"): "lp_length", ("GaussianBeamAxisymmetric", "laser_radius"): "lp_radius",
+    ("GaussianBeamAxisymmetric", "pulse_energy"): "lp_energy", ("GaussianBeamAxisymmetric", "pulse_length"): "lp_pulse_length",
+    ("GaussianBeamAxisymmetric", "waist_z"): "lp_waist_z", ("GaussianBeamAxisymmetric", "stddev_waist"): "lp_stddev_waist",
+    ("GaussianBeamAxisymmetric", "laser_wavelength"): "lp_wavelength",
+}
+
+
+def scan_setters(repo):
+    """(class, attribute) of every `@attr.setter` in the anchored files of the current working tree"""
+    import re
+    found = []
+    for rel in ANCHORED:
+        cls = None
+        for line in open(os.path.join(repo, rel), encoding="utf8", errors="replace"):
+            m = re.match(r"^(?:cdef\s+)?class\s+(\w+)", line)
+            if m:
+                cls = m.group(1)
+            m = re.match(r"^\s+@(\w+)\.setter\b", line)
+            if m:
+                found.append((cls, m.group(1), rel))
+    return found
 
 
 def signature(sc, obs):
@@ -108,6 +182,22 @@ def run(ctx):
     fidx = {f: i for i, f in enumerate(FIELDS)}
     didx = {d: i for i, d in enumerate(DATA)}
 
+    # ---- (T) the public mutators of the current source are all in the op universe -------------------------------
+    setters = scan_setters(REPO)
+    unmapped = sorted({(c, a, r) for c, a, r in setters if (c, a) not in MUTATORS})
+    stale_map = sorted(k for k in MUTATORS if k not in {(c, a) for c, a, _ in setters})
+    badfield = sorted(k for k, v in MUTATORS.items() if isinstance(v, str) and v not in S.FIELDS)
+    ctx.obligation("every public setter of the %d anchored files (%d found) is a mutator of the op universe or excluded with a reason"
+                   % (len(ANCHORED), len(setters)), "tie", not unmapped and not badfield,
+                   "setters in the source that the check does not drive: %s; mapped to unknown fields: %s" % (unmapped, badfield))
+    if unmapped:
+        ctx.violation("c01-unmapped-mutator:" + ",".join("%s.%s" % (c, a) for c, a, _ in unmapped[:4]),
+                      "the source has public setters that the check does not drive, so the property is not shown for them: %s" % unmapped,
+                      {"unmapped": unmapped}, found=False)
+    ctx.coverage["mutators"] = {"setters_in_source": len(setters), "driven": sum(1 for v in MUTATORS.values() if isinstance(v, str)),
+                                "excluded": {"%s.%s" % k: v[1] for k, v in MUTATORS.items() if not isinstance(v, str)},
+                                "mapping_entries_without_a_setter_in_the_source": ["%s.%s" % k for k in stale_map]}
+
     # ---- (T) probe: invalidation table + single-step staleness rows ------------------------------------
     base = S.default_config()
     base["p_models"] = (0, 1, 2, 3, 4)
@@ -115,7 +205,10 @@ def run(ctx):
     alt_list = {"p_models": [(4, 3, 2, 1, 0)], "b_models": [(1, 0)], "l_models": [()], "p_composition": [(0, 4, 2, 3), (0, 1, 2, 3, 5)]}
     # a field whose effect depends on the scene-graph topology is probed in a topology where it matters:
     # the intermediate node is an ancestor of the beam and the laser (not of the plasma)
-    probe_base = {"a_transform": {"b_parent": 1, "l_parent": 1, "p_parent": 0}}
+    probe_base = {"a_transform": {"b_parent": 1, "l_parent": 1, "p_parent": 0},
+                  # profile parameters that only some profile classes have are probed on such a class
+                  "lp_waist_z": {"l_profile": 2}, "lp_stddev_waist": {"l_profile": 2}, "lp_wavelength": {"l_profile": 2},
+                  "lp_mean_z": {"l_profile": 3}}
     inval = {}
     probe_rows = []
     probe_fail = []
@@ -147,6 +240,44 @@ def run(ctx):
     for pf in probe_fail[:4]:
         ctx.violation("c01-probe:" + str(pf["history"][1][1]), "after [observe; set %s; observe] the observation differs from a scene "
                       "built from scratch in the final configuration" % pf["history"][1][1], pf, found=True)
+
+    # ---- (X) replace-then-mutate probes: [observe; set g; observe; set f; observe] where g replaces a subscriber
+    # object (the replaced object is dropped and dies while still registered with the notifiers) -----------------
+    REPLACERS = ["p_models", "b_models", "l_models", "b_attenuator", "l_profile", "l_spectrum", "p_edist", "p_atomic_data",
+                 "b_atomic_data", "p_composition", "att_clamp_to_zero"]
+
+    def alt_of(f, cfg):
+        cands = alt_list.get(f) or [v for v in range(len(S.VALUES[f])) if v != cfg[f]] or [cfg[f]]
+        return cands[rng.randrange(len(cands))]
+    pairs = [(g, f) for g in REPLACERS for f in FIELDS if f != g]
+    if ctx.quick:
+        rng.shuffle(pairs)
+        pairs = pairs[:90]
+    two_fail = []
+    for g, f in pairs:
+        sc = S.Scene(dict(base, **probe_base.get(f, {})), fresh_models=True)
+        hist = [["observe"]]
+        try:
+            sc.observe()
+            for fld in (g, f):
+                v = alt_of(fld, sc.cfg)
+                hist.append(["set", fld, repr(v)])
+                ctx.crumb({"start_config": "default", "fresh_models": True, "history_so_far": hist + [["observe"]]})
+                sc.apply(("set", fld, v))
+                obs = sc.observe()
+                hist.append(["observe"])
+        except Exception as e:
+            two_fail.append({"history": hist, "raised": type(e).__name__ + ": " + str(e)[:200]})
+            continue
+        diffs = S.same(obs, S.Scene(sc.cfg).observe())
+        if diffs:
+            two_fail.append({"history": hist, "start_config": "default", "fresh_models": True, "differs_from_fresh": [list(d) for d in diffs[:3]]})
+    ctx.obligation("probe: replace a subscriber object, observe, then one setter: the scene equals a fresh scene (%d of %d (replacer, setter) pairs)"
+                   % (len(pairs), len(REPLACERS) * (len(FIELDS) - 1)), "search", not two_fail, str(two_fail[:3]))
+    for pf in two_fail[:4]:
+        ctx.violation("c01-probe2:%s>%s" % (pf["history"][1][1], pf["history"][-2][1] if len(pf["history"]) > 3 else "?"),
+                      "after %s the observation differs from a scene built from scratch in the final configuration" % pf["history"], pf, found=True)
+    ctx.coverage["replace_then_mutate_pairs"] = len(pairs)
 
     # ---- Gen/C01/Table.v and its tie lemma -------------------------------------------------------------
     def match_fn(name, rows, n):
@@ -205,7 +336,8 @@ def run(ctx):
             if rng.random() < 0.3:
                 cfg[f] = rng.choice(S.VALUES[f]) if f in S.LIST_FIELDS else rng.randrange(len(S.VALUES[f]))
         start = dict(cfg)
-        sc = S.Scene(cfg)
+        fresh_models = rng.random() < 0.5
+        sc = S.Scene(cfg, fresh_models=fresh_models)
         ops, model_ops, verdicts = [], [], []
         n = rng.randint(1, 14) if ctx.quick else rng.randint(1, 25)
         lens.append(n)
@@ -219,7 +351,8 @@ def run(ctx):
             ops.append(("observe",))
             model_ops.append("Observe")
             if d:
-                impl_fail.append({"start_config": {k: repr(v) for k, v in start.items()}, "history": [list(map(repr, o)) for o in ops],
+                impl_fail.append({"start_config": {k: repr(v) for k, v in start.items()}, "fresh_models": fresh_models,
+                                  "history": [list(map(repr, o)) for o in ops],
                                   "differs_from_fresh": [list(x) for x in d[:3]]})
         for k in range(n):
             if rng.random() < 0.3:
